@@ -274,7 +274,7 @@ done:
 }
 
 int rc_lenient_width = 1;   /* 1 (the documented C01 oracle): RSA / ECDSA signatures are judged as integers, whatever their zero-padded width; 0: RFC 7518 widths only */
-int rc_verify(const vk_t *k, jwt_alg_t alg, const void *msg, size_t n, const unsigned char *sig, size_t siglen)
+static int rc_verify_inner(const vk_t *k, jwt_alg_t alg, const void *msg, size_t n, const unsigned char *sig, size_t siglen)
 {
 	rc_family_t fam = rc_family(alg);
 	EVP_MD_CTX *ctx = NULL;
@@ -343,7 +343,16 @@ done:
 	EVP_MD_CTX_free(ctx);
 	EVP_PKEY_free(tmp);
 	free(buf);
-	ERR_clear_error();
+	return ok;
+}
+
+/* the reference leaves the thread's OpenSSL error queue exactly as it found it: whatever libjwt left there stays there
+ * (code that consults the queue must cope with entries of earlier failures), and nothing of the reference's own is added */
+int rc_verify(const vk_t *k, jwt_alg_t alg, const void *msg, size_t n, const unsigned char *sig, size_t siglen)
+{
+	ERR_set_mark();
+	int ok = rc_verify_inner(k, alg, msg, n, sig, siglen);
+	ERR_pop_to_mark();
 	return ok;
 }
 
